@@ -1,7 +1,7 @@
 (* C03 — Quota admission never lets usage pass the quota's limit.  Exported theorems only. *)
 From Coq Require Import List ZArith Bool.
 From Verif Require Import C02.Model C03.Model C03.Spec C03.Codec C03.Entry C03.Proofs C03.Proofs_Runtime
-     C03.Proofs_Inv C03.Proofs_Flight C03.Proofs_Step C03.Proofs_Check C03.Proofs_Sound C03.Proofs_Hist C03.Proofs_NP C03.Proofs_Codec.
+     C03.Proofs_Inv C03.Proofs_Flight C03.Proofs_Step C03.Proofs_Check C03.Proofs_Sound C03.Proofs_Hist C03.Proofs_NP C03.Proofs_Codec C03.Examples.
 Import ListNotations.
 Open Scope Z_scope.
 
@@ -92,7 +92,7 @@ Theorem c03_step_invariant : forall cfg wf st sn o,
   INV cfg wf st -> FL wf st sn ->
   INV cfg (wf && op_okb st sn o) (fst (step cfg st o))
   /\ FL (wf && op_okb st sn o) (fst (step cfg st o)) (track cfg st sn o).
-Proof. intros cfg wf st sn o I F. split; [exact (INV_step cfg wf st sn o I F)|exact (FL_step cfg wf st sn o I F)]. Qed.
+Proof. exact INV_FL_step. Qed.
 Print Assumptions c03_step_invariant.
 
 (* 6. The decision procedure that bin/check runs on the IMPLEMENTATION's observations accepts
@@ -138,37 +138,22 @@ Theorem c03_np_within_min_refuted :
 Proof. exact admit_np_strict_refuted. Qed.
 Print Assumptions c03_np_within_min_refuted.
 
-(* ---------- non-vacuity ---------- *)
-Definition v3 (a b c : Z) : vec := mkVec a b c.
-Definition cm : mask := mkMask true true false.
-Definition am : mask := mkMask true true true.
-(* a parent with two children, pending pods, attempts (admitted and rejected), roll-back,
-   a PreFilter whose Reserve comes three events later, deletion, a max raise, capacity changes *)
-Definition ex_hist : list op :=
-  [ OCapacity (v3 20 40 0);
-    OQuotaAdd 1 0 true cm (v3 10 20 0) cm (v3 4 8 0) (v3 0 0 0);
-    OQuotaAdd 2 1 true cm (v3 6 20 0) cm (v3 2 4 0) (v3 0 0 0);
-    OQuotaAdd 3 1 false cm (v3 8 10 0) cm (v3 2 4 0) (v3 1 1 0);
-    OPodAdd 1 2 false (v3 4 5 7) am; OPodAdd 2 2 false (v3 3 5 0) cm; OPodAdd 3 3 true (v3 2 2 0) cm;
-    OPodAdd 4 3 true (v3 1 3 0) cm;
-    OAttempt 1; OAttempt 2; OAttempt 3; OAttempt 4;
-    OUnreserve 1; OCheck 2; OPodAdd 5 3 false (v3 1 0 0) cm; OCapacity (v3 30 40 0); OReserve 2;
-    OPodDelete 2;
-    OQuotaUpdate 2 (v3 9 20 0) cm (v3 2 4 0) (v3 0 0 0);
-    OCapacity (v3 5 9 0); OAttempt 1; OAttempt 4 ].
-
+(* ---------- non-vacuity (definitions in Examples.v) ---------- *)
+(* ex_hist: a parent with two children, pending pods, attempts (admitted and rejected), roll-back,
+   a PreFilter whose Reserve comes three events later, deletion, a max raise, capacity changes:
+   it satisfies the hypotheses of theorem 4 for all four switch combinations *)
 Example ex_hist_wf : forall rt chk,
   wf_hist (mkConfig rt chk) init_state None ex_hist = true
   /\ benign (mkConfig rt chk) init_state ex_hist = true.
-Proof. intros [|] [|]; vm_compute; split; reflexivity. Qed.
+Proof. exact ex_hist_wf_proof. Qed.
 
-(* verdicts of the seven attempts for the four switch combinations: both outcomes occur *)
+(* verdicts of its seven admission decisions for the four switch combinations: both outcomes occur *)
 Example ex_hist_verdicts :
   map (fun cfg => map o_status (filter (fun o => negb (o_status o =? -1) && negb (length (o_limits o) =? 0)%nat)
                                        (run cfg init_state ex_hist)))
       [mkConfig false false; mkConfig false true; mkConfig true false; mkConfig true true]
   = [[0; 1; 0; 1; 0; 0; 1]; [0; 1; 0; 1; 0; 0; 1]; [0; 1; 0; 1; 0; 1; 1]; [0; 1; 0; 1; 0; 1; 1]].
-Proof. vm_compute. reflexivity. Qed.
+Proof. exact ex_hist_verdicts_proof. Qed.
 
 (* the exclusions of theorem 4 are necessary: an already-bound pod replayed by the informer is
    charged without admission ... *)
@@ -177,7 +162,7 @@ Example ex_bound_pod_bypasses_admission :
                  [OQuotaAdd 1 0 true cm (v3 4 4 0) cm (v3 0 0 0) (v3 0 0 0);
                   OPodAddBound 1 1 false (v3 9 1 0) cm] in
   map (fun q => (q_used q, q_max q, q_taint q)) (quotas st) = [(v3 9 1 0, v3 4 4 0, true)].
-Proof. vm_compute. reflexivity. Qed.
+Proof. exact ex_bound_pod_proof. Qed.
 
 (* ... and without parent checking a parent can pass its max through its children *)
 Example ex_parent_passes_max_without_check :
@@ -189,4 +174,4 @@ Example ex_parent_passes_max_without_check :
                   OAttempt 1; OAttempt 2] in
   map (fun q => (q_id q, q_used q, q_taint q)) (quotas st)
   = [(1, v3 6 2 0, true); (2, v3 3 1 0, false); (3, v3 3 1 0, false)].
-Proof. vm_compute. reflexivity. Qed.
+Proof. exact ex_parent_proof. Qed.
